@@ -53,13 +53,23 @@ static spsc_node_t* node_by_name(const char* n) {
   fprintf(stderr, "unknown node %s\n", n);
   exit(64);
 }
+static unsigned long long g_counter_base;
+static void dec_counter(const void* base, char* out, size_t cap) {
+  snprintf(out, cap, "%lld", (long long)((unsigned long long)((const mpscr_fifo_t*)base)->counter - g_counter_base));
+}
 static void drv_setup(void) {
   const char* nps = t_param("producers");
   int np = nps ? atoi(nps) : 2;
   q = mpscr_fifo_create((size_t)np);
   if (!q) exit(65);
+  /* counter is rendered relative to a preset base (param counter_base, a multiple of the
+     producer count) so that a scenario can start just below 2^32 and cross it */
+  const char* cb = t_param("counter_base");
+  g_counter_base = cb ? strtoull(cb, NULL, 10) : 0;
+  q->counter = g_counter_base;
   static const vrt_field_t qf[] = {
-      {"counter", offsetof(mpscr_fifo_t, counter), 8, VD_U64, 0, 0},
+      {"ctr", offsetof(mpscr_fifo_t, counter), 1, VD_U8, VF_NOEPOCH, 0}, /* low byte: makes accesses scheduling points */
+      {"counter", 0, 0, VD_CUSTOM, 0, dec_counter},
   };
   static const vrt_field_t ff[] = {
       {"head", offsetof(spsc_fifo_t, head), 8, VD_PTR, 0, 0},
@@ -88,7 +98,7 @@ static void drv_setup(void) {
   static const vrt_field_t df[] = {{"tries", offsetof(__typeof__(drv), tries), 8, VD_U64, 0, 0},
                                    {"sh", offsetof(__typeof__(drv), sh), 8, VD_U64, VF_NOSCHED, 0}};
   vrt_reg_obj("drv", &drv, sizeof drv, df, 2);
-  vrt_reg_obj("q", q, offsetof(mpscr_fifo_t, fifos), qf, 1);
+  vrt_reg_obj("q", q, offsetof(mpscr_fifo_t, fifos), qf, 2);
   for (int i = 0; i < np; i++) {
     snprintf(name, sizeof name, "f%d", i);
     vrt_reg_obj(name, &q->fifos[i], sizeof(spsc_fifo_t), ff, 2);
